@@ -17,7 +17,7 @@ from vf.checks import c04, c05
 
 SHARDS = {'quick': 16, 'thorough': 64}
 TIMEOUT = {'quick': 1800, 'thorough': 7200}
-MUST_HIT = ['Case.variant-in-random-layout', 'Case.invoke-variant', 'Case.parse-variant', 'Case.interpret-variant', 'Case.prebuild-variant', 'Case.select-many-upper',
+MUST_HIT = ['Case.variable-named-like-a-keyword-fragment', 'Case.variant-in-random-layout', 'Case.invoke-variant', 'Case.parse-variant', 'Case.interpret-variant', 'Case.prebuild-variant', 'Case.select-many-upper',
             'Case.boolean-literal-variant', 'Case.word-operator-variant']
 MUST_REACH = ['bridgepoint/oal.py:OALParser.t_ID', 'bridgepoint/interpret.py:ActionWalker.accept_SelectFromNode',
               'bridgepoint/interpret.py:ActionWalker.accept_SelectRelatedNode',
@@ -287,3 +287,4 @@ def run(ctx):
             ctx.case(('prebuild', lower), nt, sample=dict(stream='prebuild', program=lower[:300]))
         except Mismatch as e:
             ctx.violation(e.key, e.what, case=dict(what=e.what))
+    ctx.hit('Case.variable-named-like-a-keyword-fragment', pbgen.KEYWORD_FRAGMENT_NAMES[0])
